@@ -363,7 +363,11 @@ func (d Decimal) Mod(input Decimal) Decimal {
 
 // ToProtoDecimal returns the proto Decimal representation of decimal.
 func (d Decimal) ToProtoDecimal() *dtpb.Decimal {
-	return fhir.Decimal(decimal.Decimal(d).InexactFloat64())
+	// The FHIR decimal is a decimal string: render the exact value. (Going through
+	// float64 dropped trailing zeros, and digits beyond float64's 17.)
+	return &dtpb.Decimal{
+		Value: decimal.Decimal(d).String(),
+	}
 }
 
 // Round rounds a Decimal at the provided precision.
